@@ -134,7 +134,8 @@ func genHistory(t *simrt.Tape, cfg histCfg) *History {
 		}
 		if si > 0 && t.Choose(6, "pid.alias") == 5 {
 			// PIDs that agree in their low byte (4000 and 4256, 4768): still different processes
-			pid = w.Sessions[t.Choose(si, "pid.alias.of")].PID + 256*(1+t.Choose(3, "pid.alias.k"))
+			// (also 65536 and 2^21 apart: equal in their low 16 / 21 bits)
+			pid = w.Sessions[t.Choose(si, "pid.alias.of")].PID + []int{256, 512, 768, 65536, 131072, 1 << 21}[t.Choose(6, "pid.alias.k")]
 			for clash := true; clash; {
 				clash = false
 				for _, o := range w.Sessions {
@@ -143,6 +144,23 @@ func genHistory(t *simrt.Tape, cfg histCfg) *History {
 						clash = true
 					}
 				}
+			}
+		}
+		if ses != "4294967295" && t.Choose(7, "ses.eq.pid") == 6 {
+			// the audit session id is just a counter: it may coincide with a PID (its own sshd's or
+			// that of another session)
+			cand := pid
+			if si > 0 && t.Choose(2, "ses.eq.pid.other") == 1 {
+				cand = w.Sessions[t.Choose(si, "ses.eq.pid.of")].PID
+			}
+			clash := false
+			for _, o := range w.Sessions {
+				if o.Ses == fmt.Sprint(cand) {
+					clash = true
+				}
+			}
+			if !clash {
+				ses = fmt.Sprint(cand)
 			}
 		}
 		s := &Session{Ses: ses, PID: pid, UID: 1000 + si, Kind: kind}
